@@ -100,6 +100,24 @@ func checkHistory(h scen.C06History, bound int, out *shardOut) {
 	again, _, _ := execute(h, vec{})
 	out.Executions += 2
 	if i, x, y := firstDiff(base, again); i >= 0 {
+		// two executions under the same choices differ: if that happens again on two further executions, the results
+		// depend on something no choice of the harness stands for (a memory address, say) - which is what the property
+		// rules out; a difference that does not come back is reported as a fault of the harness
+		third, _, _ := execute(h, vec{})
+		fourth, _, _ := execute(h, vec{})
+		out.Executions += 2
+		j, _, _ := firstDiff(third, fourth)
+		k, _, _ := firstDiff(base, third)
+		if j >= 0 && k >= 0 {
+			what := kindOfLine(x)
+			if what == "" {
+				what = kindOfLine(y)
+			}
+			out.Viols = append(out.Viols, mc.Record{Property: "C06", Scenario: h.Sc.Name(), Kind: "c06", Clause: "identical-results-on-independent-executions",
+				Signature: "identical-results-on-independent-executions:" + what + " depends-on=something-outside-every-controlled-choice",
+				Detail:    fmt.Sprintf("four executions under the default choices give pairwise different results; first difference at observation %d: %q vs %q", i, trunc(x), trunc(y)), Path: h.Path, Case: vec{}.String()})
+			return
+		}
 		out.Harness = append(out.Harness, fmt.Sprintf("default vector not reproducible for %s %v: line %d %q vs %q", h.Sc.Name(), h.Path, i, x, y))
 		return
 	}
@@ -316,7 +334,7 @@ func main() {
 		if tier == "thorough" {
 			bound = 2
 		}
-		r.Rules = append(r.Rules, fmt.Sprintf("for every history (all search-tree paths of the C06/mix scenario to suffix depth %d extended to a reward block, plus search-tree paths of the C17, C01, C09, C10, C18, C14, C07 scenarios): one execution of the real ABCI pipeline on a fresh node per choice vector with <= %d deviations from the default (every permutation of every map iteration reached, two wall-clock bases, two initial RNG seeds, two host time zones: UTC and one with daylight saving, a restart of the process after each committed block, every transaction first simulated on the node, the garbage collector run before every transaction, 1 or 2 CPUs instead of all); states = histories, transitions = executions; a history is non-trivial if its default execution is reproducible", map[string]int{"quick": 2, "thorough": 3}[tier], bound))
+		r.Rules = append(r.Rules, fmt.Sprintf("for every history (all search-tree paths of the C06/mix scenario to suffix depth %d extended to a reward block, 6 (thorough: 20) histories of 9 further blocks in which nobody proves again (provers are struck off, contracts burned, files dropped), plus search-tree paths of the C17, C01, C09, C10, C18, C14, C07 scenarios): one execution of the real ABCI pipeline on a fresh node per choice vector with <= %d deviations from the default (every permutation of every map iteration reached, two wall-clock bases, two initial RNG seeds, two host time zones: UTC and one with daylight saving, a restart of the process after each committed block, every transaction first simulated on the node, the garbage collector run before every transaction, 1 or 2 CPUs instead of all); states = histories, transitions = executions; a history is non-trivial if its default execution is reproducible", map[string]int{"quick": 2, "thorough": 3}[tier], bound))
 		r.Assumptions = append(r.Assumptions, "nondeterminism sources are those the seamgen inventory finds in x/, app/, wasmbinding/, types/ (map ranges, time.Now, tendermint rand.NewRand); go statements/select: none outside generated gateway code", "SDK, Tendermint and wasmvm internals are taken as deterministic")
 		for i, s := range total.Samples {
 			if i < 4 {
